@@ -28,6 +28,7 @@ import (
 
 var runners = map[string]func(*wk.Job, *wk.Worker) error{
 	"c01": c01.Run,
+	"fr":  c01.RunFieldRules,
 	"c02": c02.Run,
 	"c05": c05.Run,
 	"c06": c06.Run,
